@@ -34,7 +34,9 @@ ASSUMPTIONS = ["resolution does not validate arguments against definitions (not 
 @st.composite
 def cases(draw, tier="quick"):
     n_ext = draw(st.integers(1, 3))
-    names = draw(st.lists(extgen.EXTN, min_size=n_ext, max_size=n_ext, unique=True))
+    # pool extension names are disjoint from the names used by arbitrary opaque types, so that an
+    # opaque type never claims a bound that contradicts a pool definition of the same name
+    names = ["pool." + n for n in draw(st.lists(extgen.EXTN, min_size=n_ext, max_size=n_ext, unique=True))]
     pool = [draw(extgen.extensions(name=n, max_defs=3, min_ops=1, min_types=1)) for n in names]
     for e in pool:
         e["values"] = []
